@@ -852,7 +852,7 @@ func Spec() *mon.Spec {
 			"`use` inside `eval`-ed strings is not generated (neither file nor prompt: undocumented base)",
 			"library directories are searched in list order (command.md lists them in order)",
 		},
-		Phases: []mon.Phase{{Name: "graph", Quick: 4000, Thorough: 80000, Run: runGraph}},
+		Phases: []mon.Phase{{Name: "graph", Quick: 8000, Thorough: 80000, Run: runGraph}},
 		Floors: map[string]int{"distinct_nontrivial": 800, "cycle_hits": 500, "failed_evaluations": 500,
 			"reevaluations_after_failure": 200, "modules_reached_by_2plus_specs": 800, "relative_from_file": 1000,
 			"relative_from_cwd": 1000, "lib_imports": 1000, "lazy_imports_in_functions": 100, "shadowed_lib_lookups": 30,
